@@ -178,7 +178,7 @@ theorem filter_res (c : Ctx) (item : ItemK) (bool : BoolK) (any : AnyK) (t : St)
         ⟨{ (bool { t with current := x } C x false).st with current := t.current }, some l, .notFound, none⟩
       else ⟨{ (bool { t with current := x } C x false).st with current := t.current }, some (l ++ [x]), .ok, none⟩ := by
   rw [C10.filter_cases c item bool any t n C none x (some l) u hx]
-  simp only [C10.current_bound, executeNextItem, Found.append, Option.map_some]
+  rfl
 
 section step
 variable (c : Ctx) (C : Node) (s : St) (K : Nat)
